@@ -10,7 +10,7 @@ from ..cfg import cfg_of
 from ..model import AnalysisError, FunctionInfo, bind_args
 from ..roles import roles_of
 from ..terms import call_name, canon, conjuncts, const_num, guard_of, linear, norm_stmt
-from .common import int_le_form, iter_stores, kw, reaching_assignments
+from .common import int_le_form, iter_stores, kw, reaching_assignments, pos
 
 EXPLANATION = (
     "R1 the direction generator returns vstack((M, -M)). R2 non-singular by construction: the assignments to M are, in order, a strictly "
@@ -140,7 +140,7 @@ def check(ctx):
     # ------------------------------------------------------------------ R2
     ctx.rule("R2", "M = strictly triangular + non-zero diagonal, then rank-preserving operations only; entries bounded by n_max", floor=5)
     params = gen.params
-    chain = sorted([(s.lineno, v, s) for t, v, s, k in iter_stores(gen.node) if isinstance(t, ast.Name) and t.id == mname], key=lambda x: x[0])
+    chain = sorted([(pos(s), v, s) for t, v, s, k in iter_stores(gen.node) if isinstance(t, ast.Name) and t.id == mname], key=lambda x: x[0])
     # n_max
     nmax = None
     for t, v, s, k in iter_stores(gen.node):
